@@ -221,7 +221,8 @@ func (r *remoteReplicator) IsReady() bool {
 		r.ResetReplicaIndex(needResetReplicaIdx)
 		r.state.Store(&state{state: models.ReplicatorReadyState})
 		return true
-	case remoteLastReplicaAckIdx > appendIdx:
+	case nextReplicaIdx > appendIdx:
+		// follower is ahead of leader(remote's next index > current append index),
 		// new write data will be lost, because leader's lost old wal data
 		r.ResetAppendIndex(nextReplicaIdx)
 		r.statistics.ResetAppendIdx.Incr()
